@@ -103,6 +103,85 @@ TYPES = {
 }
 
 
+# ---- type-directed values for the decoding model (`dex` lines): the same descriptors as Run.v's dex_types
+def _i(lo, hi): return ("int", lo, hi)
+I8, I16, I32, I64 = _i(-2**7, 2**7 - 1), _i(-2**15, 2**15 - 1), _i(-2**31, 2**31 - 1), _i(-2**63, 2**63 - 1)
+U8, U16, U32, U64 = _i(0, 2**8 - 1), _i(0, 2**16 - 1), _i(0, 2**32 - 1), _i(0, 2**64 - 1)
+T_PT = ("struct", [("x", I32), ("y", ("opt", ("str",)))])
+T_WRAP = ("newtype", U8)
+T_EN = ("enum", [("A", ("unit",)), ("B", ("newtype", U32)), ("C", ("tstruct", [I8, ("bool",)])), ("D", ("struct", [("p", ("f64",)), ("q", ("seq", U8))]))])
+T_EN2 = ("enum", [("At", ("newtype", ("opt", I32))), ("Mark", ("newtype", ("unit",))), ("U", ("newtype", ("ustruct",))), ("W", ("newtype", T_WRAP)),
+                  ("V", ("newtype", ("seq", U8))), ("N", ("newtype", ("opt", ("opt", ("bool",))))), ("E", ("newtype", T_EN)), ("S", ("struct", [])), ("T", ("tstruct", []))])
+K_STR, K_UID, K_COLOR = ("kstr",), ("knewtype", ("kstr",)), ("kenum", ["Red", "Green"])
+DEX = {
+    "bool": ("bool",), "i8": I8, "i16": I16, "i32": I32, "i64": I64, "u8": U8, "u16": U16, "u32": U32, "u64": U64, "f64": ("f64",), "char": ("char",),
+    "string": ("str",), "unit": ("unit",), "opt_i32": ("opt", I32), "opt_opt": ("opt", ("opt", ("bool",))), "vec_u64": ("seq", U64), "vec_vec": ("seq", ("seq", I8)),
+    "tup2": ("tuple", [I32, I32]), "tup3": ("tuple", [U8, ("str",), ("opt", ("bool",))]), "arr2": ("tuple", [I32, I32]),
+    "map_u32": ("map", K_STR, U32), "map_char": ("map", ("kchar",), I64), "pt": T_PT, "wrap": T_WRAP, "pair": ("tstruct", [I16, ("str",)]), "marker": ("ustruct",),
+    "en": T_EN, "nest": ("struct", [("e", T_EN), ("l", ("seq", T_PT)), ("m", ("map", K_STR, ("opt", T_EN))), ("t", ("tuple", [U64, I64])), ("w", T_WRAP)]),
+    "map_nt": ("map", K_UID, U32), "map_nt_nest": ("map", K_STR, ("map", K_UID, ("seq", ("str",)))), "map_enumkey": ("map", K_COLOR, I8),
+    "map_i32key": ("map", ("kint", -2**31, 2**31 - 1), ("bool",)), "map_u64key": ("map", ("kint", 0, 2**64 - 1), ("opt", U8)), "map_boolkey": ("map", ("kbool",), U8),
+    "en2": T_EN2, "opt_en": ("opt", T_EN), "vec_en2": ("seq", T_EN2), "map_en2": ("map", K_STR, T_EN2), "value": ("value",),
+}
+WORDS = ["", "a", "b", "x", "y", "é", "ab", "A", "B", "Red", "true", "1", "-2", "1.0", "01", " 1", "1 ", "1e2", "-0", "+1", "18446744073709551615", "\U0001f600"]
+
+
+def fit_key(rng, k):
+    if k[0] == "kstr": return rng.choice(WORDS)
+    if k[0] == "kchar": return rng.choice(["a", "é", "\U0001f600", "z", "ab", ""])
+    if k[0] == "kint":
+        return rng.choice([str(rng.choice([k[1], k[2], 0, 1, -1, 7, k[1] - 1, k[2] + 1, rng.randint(k[1], k[2])])), "1.0", "01", " 1", "1 ", "1e2", "-0", "+1", "x", "", "-", "0x1", "1\n"])
+    if k[0] == "kbool": return rng.choice(["true", "false", "True", "", "1"])
+    if k[0] == "knewtype": return fit_key(rng, k[1])
+    if k[0] == "kenum": return rng.choice(k[1] + ["Blue", "red", ""])
+
+
+def fit(rng, t, miss=0.12):
+    """a JSON value that (mostly) decodes into t; with probability `miss` per node something nearby that may not"""
+    if rng.random() < miss:
+        return rng.choice([None, True, 0, -1, 1.5, "", "A", [], [None], {}, {"A": None}, [1, 2, 3], 2**64 - 1, -2**63, {"x": 1}])
+    k = t[0]
+    if k == "bool": return rng.random() < 0.5
+    if k == "int": return min(2**64 - 1, max(-2**63, rng.choice([t[1], t[2], 0, 1, -1, t[1] - 1, t[2] + 1, rng.randint(t[1], t[2]), 1.0])))
+    if k == "f64": return rng.choice([1.5, 1, -1, 2**64 - 1, -2**63, 2**53 + 1, 0.1, 1e300, -0.0, 5e-324])
+    if k == "char": return rng.choice(["a", "é", "\U0001f600", "ab", ""])
+    if k == "str": return rng.choice(WORDS)
+    if k in ("unit", "ustruct"): return None
+    if k == "opt": return None if rng.random() < 0.3 else fit(rng, t[1], miss)
+    if k == "seq": return [fit(rng, t[1], miss) for _ in range(rng.choice([0, 1, 2, 3]))]
+    if k in ("tuple", "tstruct"):
+        l = [fit(rng, x, miss) for x in t[1]]
+        q = rng.random()
+        return l[:-1] if q < 0.08 and l else l + [None] if q < 0.16 else l
+    if k == "newtype": return fit(rng, t[1], miss)
+    if k == "struct":
+        q = rng.random()
+        if q < 0.15:
+            l = [fit(rng, x, miss) for _, x in t[1]]
+            return l[:-1] if rng.random() < 0.2 and l else l + [1] if rng.random() < 0.2 else l
+        o = {}
+        for n, x in t[1]:
+            if rng.random() < 0.85:
+                o[n] = fit(rng, x, miss)
+        if rng.random() < 0.2:
+            o[rng.choice(["z", "extra", ""])] = rng.choice([None, 1, [1, [2]], {"a": {}}])
+        return o
+    if k == "enum":
+        n, p = rng.choice(t[1])
+        q = rng.random()
+        if q < 0.06: n = rng.choice(["Z", "", "a"])
+        if p[0] == "unit":
+            return n if rng.random() < 0.6 else {n: rng.choice([None, None, 1, []])}
+        if rng.random() < 0.08: return n
+        v = {n: fit(rng, p if p[0] != "newtype" else p[1], miss)}
+        if rng.random() < 0.05: v["B"] = 1
+        return v
+    if k == "map":
+        return {fit_key(rng, t[1]): fit(rng, t[2], miss) for _ in range(rng.choice([0, 1, 2, 3]))}
+    if k == "value": return gen.rand_doc(rng, 3)
+
+
+
 class P(framework.Prop):
     id = "C14"
     rule = ("ser cases: seeded values of all serde data-model shapes (nested to depth 4; every integer width at its extremes; f32/f64 incl. "
@@ -127,11 +206,19 @@ class P(framework.Prop):
             K = 15 if tier == "quick" else 400
             for _ in range(K):
                 out.append("de %s %s" % (ty, wire.val(gen.rand_doc(rng, 2))))
+        # the decoding model: the same and type-directed values, observed structurally, against [Decode.de]
+        for ty, t in DEX.items():
+            for v in TYPES.get(ty, []):
+                out.append("dex %s %s" % (ty, wire.val(v)))
+            for _ in range(40 if tier == "quick" else 4000):
+                out.append("dex %s %s" % (ty, wire.val(fit(rng, t))))
+            for _ in range(6 if tier == "quick" else 300):
+                out.append("dex %s %s" % (ty, wire.val(gen.rand_doc(rng, 2))))
         return out
 
     def oracle(self, case, iobs):
         parts = iobs.split(" | ")
-        if case.startswith("de "):
+        if case.startswith("de ") or case.startswith("dex "):
             if len(parts) != 2:
                 return "unreadable observation %s" % iobs
             if parts[0] != parts[1]:
